@@ -20,11 +20,13 @@ HOW = {"Attr": "Attr", "TraitSet": "TraitSet", "Ctor": "Ctor"}
 def to_term(case, ob):
     env = pv.env_term(110, ob["orc"], ob["re"])
     dfl = dict((n, w) for n, w in ob["defaults"])
-    cls = [(int(t[0]), (pv.desc_term(t[1]), pv.val_term(dfl[t[0]]))) for t in case["traits"]]
+    def dterm(t):      # a settable validated Property(<trait>) is the description DProperty <trait>
+        return C("DProperty", pv.desc_term(t[1])) if len(t) > 2 and t[2] == "property" else pv.desc_term(t[1])
+    cls = [(int(t[0]), (dterm(t), pv.val_term(dfl[t[0]]))) for t in case["traits"]]
     h = []
     for (how, kws), st in zip(case["ops"], ob["steps"]):
-        # the quiet routes (notifications off) must behave exactly like trait_set: same model operation
-        op = (C("TraitSet" if how in ("TraitSetQ", "TraitSetq") else how), [(int(n), pv.val_term(v)) for n, v in kws])
+        # the quiet routes (notifications off): the model operation TraitSetQ
+        op = (C("TraitSetQ" if how in ("TraitSetQ", "TraitSetq") else how), [(int(n), pv.val_term(v)) for n, v in kws])
         out = C("Ok") if st["out"] == "Ok" else C("Raise", C(st["out"]))
         h.append((op, C("mkObs", out, bool(st["names"]), [(int(n), pv.val_term(w)) for n, w in st["after"]])))
     return (env, cls, h)
@@ -79,6 +81,8 @@ def values_for(d, rnd, k):
         pool = pv.STRING_VALUES * 4 + pool
     if "DTuple" in kinds:
         pool = pv.tuple_values(rnd, 30, 2) + pool
+    if "DList" in kinds:
+        pool = pv.list_values(rnd, 10) * 2 + pool[:20]
     if "DArray" in kinds:        # arrays only meet Array traits (array == x is element-wise: not modelled elsewhere)
         pool = pv.ARRAY_VALUES
     return [rnd.choice(pool) for _ in range(k)]
@@ -115,7 +119,16 @@ def corpus():
                        ops=[[q, [[0, S("no")]]], [q, [[0, S("yest")]]], ["Attr", [[0, S("n")]]], [q, [[0, S("yes")]]]]))
         cs.append(dict(traits=[[0, m1], [2, pm]], ops=[[q, [[0, S("b")], [2, S("no")]]], [q, [[2, S("ye")]]], [q, [[0, ["PInt", 1]]]]]))
     # ValidatedTuple (no / always-true fvalidate): stores the converted members
+    for fv in (1, 2, 3):     # real custom validators; lists, tuple subclasses, members that raise
+        vt = ["DTuple", [["DFloat"], ["DInt"]], "Validated", fv]
+        one(vt, ["PTuple", [["PInt", 1], ["PInt", 2]]], ["PList", [["PInt", 5], ["PBool", True]]],
+            ["PTupleSub", [["PFloat", F(0.5)], ["PIntSub", 3]]], ["PTuple", [["PInt", 10 ** 400], ["PInt", 2]]],
+            ["PTuple", [["PIndexObj", ["Raises", "EValueError"]], ["PInt", 2]]], ["PTuple", [["PInt", 12], ["PInt", 2]]],
+            ["PTuple", [["PNpInt", 15, 1], ["PNpInt", 14, 3]]], ["PNone"], ["PTuple", [["PInt", 1]]],
+            how=("Attr", "TraitSet", "Ctor")[fv - 1])
     for fv in ("none", "true"):
+        one(["DTuple", [["DFloat"], ["DInt"]], "Validated", fv], ["PList", [["PInt", 5], ["PBool", True]]],
+            ["PTupleSub", [["PFloat", F(0.5)], ["PIntSub", 3]]], ["PTuple", [["PInt", 10 ** 400], ["PInt", 2]]])
         vt = ["DTuple", [["DFloat"], ["DInt"], ["DCast", "CTStr"]], "Validated", fv]
         one(vt, ["PTuple", [["PInt", 1], ["PInt", 2], ["PInt", 5]]], ["PTuple", [["PFloat", F(0.5)], ["PBool", True], S("a")]],
             ["PTuple", [["PInt", 1], ["PInt", 2]]], ["PInt", 1], ["PTuple", [["PNpInt", 15, 1], ["PIntSub", 3], ["PNone"]]],
@@ -125,20 +138,38 @@ def corpus():
     # configurations and values on which it coincides with the compiled one)
     pvals = [["PInt", 3], S("42"), S("n"), S("no"), ["PTuple", [["PInt", 1], ["PInt", 2]]], ["PFloat", F(0.5)], ["PBool", True],
              ["PNone"], ["PIntSub", 3], ["PNpInt", 15, 1], S("abc"), ["PTuple", [["PInt", 1], S("a")]], ["PInt", 2 ** 70],
-             ["PNpFloat", 17, F(0.5)], ["PIndexObj", ["Returns", 1]], ["PList", [["PInt", 1], ["PInt", 2]]]]
+             ["PNpFloat", 17, F(0.5)], ["PIndexObj", ["Returns", 1]], ["PList", [["PInt", 1], ["PInt", 2]]],
+             # the property is validated by the trait's PYTHON validate and without the Undefined bypass
+             ["PTupleSub", [["PInt", 1], ["PInt", 2]]], ["PUndefined"], ["PFloat", pv.PINF], ["PInt", 10 ** 400],
+             ["PIndexObj", ["Raises", "EValueError"]], ["PObj", 100, 1], ["PProxy", 100, 1]]
     for d in (["DFloat"], ["DCast", "CTInt"], ["DPrefixList", [pv.W("yes"), pv.W("no"), pv.W("nope")]],
               ["DTuple", [["DFloat"], ["DFloat"]]], ["DInt"], ["DRangeI", 0, 5, 1], ["DString", 2, 4, None], ["DBool"],
-              ["DCast", "CTFloat"], ["DComplex"], ["DUnion", [["DFloat"], ["DStr"]]]):
+              ["DCast", "CTFloat"], ["DComplex"], ["DUnion", [["DFloat"], ["DStr"]]], ["DInstance", 100, False, False],
+              ["DInstance", 0, False, False], ["DTuple", [["DInt"], ["DInt"]]], ["DCompound", [["DCast", "CTInt"], ["DFloat"]]],
+              ["DCompound", [["DString", 0, 5, None], ["DCast", "CTInt"]]], ["DEnum", [["PInt", 1], S("a")]]):
         for how in ("Attr", "TraitSet", "Ctor", "TraitSetq"):
             cs.append(dict(traits=[[0, d, "property"], [1, ["DInt"]]], ops=[[how, [[0, v]]] for v in pvals]))
-    # Range whose bounds are given BY TRAIT NAME (dynamic Range): every endpoint x every exclusion combination, with the
-    # bound traits at their initial values and after they moved
-    for lo, hi, lo0, hi0 in ((0, 5, 0, 5), (2, 7, 0, 5), (-3, 3, 1, 2), (4, 4, 0, 9)):
+    # Range whose bounds are given BY TRAIT NAME: x = Range(low='y', high='z', exclude_*) with y, z Int traits of the
+    # same class (description DRangeDyn 2 3 mask); the bounds start at 0 / 0 and are moved by the history itself
+    def iv(z):
+        return ["PInt", z]
+    for lo, hi in ((0, 5), (2, 7), (-3, 3), (4, 4)):
         for mask in (0, 1, 2, 3):
-            d = ["DRangeI", lo, hi, mask, "dynamic", lo0, hi0]
-            vals = [["PInt", z] for z in (lo, hi, lo - 1, hi + 1, lo + 1, hi - 1)] + [["PNone"], ["PBool", True], ["PTuple", []]]
-            cs.append(dict(traits=[[0, d], [1, ["DInt"]]], ops=[["Attr", [[0, v]]] for v in vals]))
-            cs.append(dict(traits=[[0, d], [1, ["DInt"]]], ops=[["TraitSet", [[0, v]]] for v in vals[:4]] + [["TraitSetq", [[0, vals[1]]]]]))
+            tr = [[0, ["DRangeDyn", 2, 3, mask]], [1, ["DInt"]], [2, ["DInt"]], [3, ["DInt"]]]
+            ends = [iv(z) for z in (lo, hi, lo - 1, hi + 1, lo + 1, hi - 1)]
+            odd = [["PFloat", F(2.5)], ["PNone"], ["PBool", True], S("3"), ["PBytes", [51]], ["PIntSub", 3], ["PNpInt", 15, 4],
+                   ["PNpFloat", 18, F(0.5)], ["PIndexObj", ["Returns", 2]], ["PIndexObj", ["Raises", "EValueError"]],
+                   ["PInt", 10 ** 400], ["PUndefined"], ["PTuple", []], ["PFloat", pv.NAN]]
+            # (validating x READS y and z, which caches their defaults in __dict__: every history / constructor call
+            #  assigns both bounds before x, so that the dictionary snapshots are those of the model)
+            cs.append(dict(traits=tr, ops=[["Attr", [[3, iv(0)]]], ["Attr", [[2, iv(0)]]], ["Attr", [[0, iv(0)]]],
+                                           ["Attr", [[3, iv(hi)]]], ["Attr", [[2, iv(lo)]]]]
+                           + [["Attr", [[0, v]]] for v in ends + odd]))
+            # the bound moves AFTER a value was stored, then the endpoints are probed again; all routes
+            cs.append(dict(traits=tr, ops=[["TraitSet", [[3, iv(hi + 4)], [2, iv(lo)]]], ["TraitSet", [[0, iv(hi + 2)]]],
+                                           ["TraitSetQ", [[3, iv(hi)]]]] + [["TraitSetq", [[0, v]]] for v in ends[:4]]
+                           + [["Ctor", [[3, iv(hi)], [2, iv(lo)], [0, ends[0]]]], ["Ctor", [[2, iv(lo)], [3, iv(hi)], [0, ends[1]]]],
+                              ["Attr", [[2, S("a")]]], ["Attr", [[0, ends[1]]]]]))
     # membership tests against a value whose == has no truth value (numpy array of size > 1) / that is unhashable:
     # the rejection must be a TraitError naming the attribute, not numpy's ValueError
     arr = [["PArray", 32, [3], 0], ["PArray", 30, [2, 3], 1], ["PArray", 36, [2], 0]]
@@ -167,6 +198,7 @@ def has_mapped_compound(d):
 
 def configs(rnd, quick):
     fixed = (pv.fast_leaves(True) + pv.int_ranges() + pv.types_() + pv.STRINGS + pv.PREFIXES + pv.ARRAYS
+             + pv.LISTS + pv.LIST_CONTAINERS
              + [["DUnion", [["DArray", 30, [3], 4], ["DInt"]]], ["DTuple", [["DArray", 33, None, 2], ["DInt"]]]]
              + [["DModule"], ["DTuple", []], ["DAny"],
                 ["DUnion", [["DInt"], ["DStr"]]], ["DUnion", [["DString", 0, 5, None], ["DCast", "CTInt"]]],
@@ -200,6 +232,8 @@ def gen_cases(ctx, rnd):
                  ["PInt", 10 ** 400], ["PNpInt", 15, 1], ["PIndexObj", ["Raises", "EValueError"]]]
     for d in fixed:
         vals = key_atoms if not pv.has_kind(d, "DArray") else pv.ARRAY_VALUES
+        if pv.has_kind(d, "DList"):
+            vals = pv.list_values(rnd, 4)
         if d[0] == "DString":          # every String configuration meets every length / regex class
             vals = pv.STRING_VALUES
         cases.append(dict(traits=[[0, d], [1, ["DInt"]]], ops=[["Attr", [[0, v]]] for v in vals]))
